@@ -150,6 +150,16 @@ CHECKS = {
             "(library extrapolation); segment histories keep instants within ~2 years because the on-disk calendar enumerates every hour of a "
             "zone's range (a magnitude mix is only driven in memory)",
             "DESIGN.md §4 C16"),
+    "C18": ("exploration",
+            "runtime monitoring: online oracle next to EventIdGenerator::next under a scripted clock (vunit) + id-column oracle over store histories with scripted clock, crash and clean restarts",
+            "Generator scripts (bursts far above 4096 ids per millisecond, sequence wrap and wait, idle gaps, backward steps of 1 ms - 1 h inside a "
+            "burst, restarts with the clock ahead / level / behind, all shard ids) are checked online for strictly increasing, never repeated ids "
+            "with correct shard bits; store histories with bursts of ~4500 events in one scripted millisecond, FLUSH, compaction, SIGKILL and clean "
+            "restarts read the event_id of every event after every step: globally unique, constant per event across tiers and recovery, increasing "
+            "in apply order within the shard, no event dropped by id dedup.",
+            "the hook clock ticks after a fixed number of reads (a frozen clock would never end the generator's wait); lifetimes that start with "
+            "the clock level with or behind the newest stored id are matched to the generator-restarts-from-zero finding",
+            "DESIGN.md §4 C18"),
 }
 
 PENDING_REASON = "check not built yet in this session (see DESIGN.md §10 for the order); no claim is made"
